@@ -630,7 +630,11 @@ class NetworkXPropertyGraph(ABCPropertyGraph, NetworkXMixin):
         # collect NodeID properties from self and other graph as set,
         # return an intersection
         self_ids = set(self.list_all_node_ids())
-        other_ids = self._collect_nodeids(self.storage.extract_graph(other_graph.graph_id))
+        other_nx_graph = self.storage.extract_graph(other_graph.graph_id)
+        if other_nx_graph is None:
+            # the other graph holds no nodes: nothing can match (as in the disjoint backend)
+            return set()
+        other_ids = self._collect_nodeids(other_nx_graph)
         return self_ids.intersection(other_ids)
 
     def merge_nodes(self, node_id: str, other_graph, merge_properties=None):
